@@ -22,6 +22,7 @@ status must equal the unperturbed run's.
 """
 import hashlib, io, json, os, re, subprocess, tarfile, threading, time
 import vlib
+import c12_tools
 
 LEVEL = "proof"
 MODULE = "Sqfs.Props.C12"
@@ -533,8 +534,43 @@ def run(ctx):
         kinds[sc["kind"] + (":B=%d" % sc["B"] if sc["kind"] == "istream" else "")] = kinds.get(sc["kind"] + (":B=%d" % sc["B"] if sc["kind"] == "istream" else ""), 0) + 1
     ctx.log("in-process: %d scenarios, %d with ≥1 scripted event consumed, %d events fired %s, %.1fs" % (
         len(done), len(nontrivial), consumed, evhist, t_in))
+    # ---- tool level
+    t1 = time.time()
+    tres, tagg, tskipped = [], {}, []
+    for k in range(1 if ctx.quick() else 3):
+        r, agg, sk = c12_tools.run(ctx, seed=ctx.seed + 1000 * k)
+        tres += r
+        tskipped += sk
+        for op, d in agg.items():
+            for kk, v in d.items():
+                tagg.setdefault(op, {}).setdefault(kk, 0)
+                tagg[op][kk] += v
+    t_tools = time.time() - t1
+    tbad = 0
+    for r in tres:
+        if not r["ok"]:
+            tbad += 1
+            if tbad <= 5:
+                cfg = ",".join("%s=%s" % kv for kv in sorted(r["config"].items()))
+                ctx.violation("tool:%s:%s" % (r["scenario"], cfg),
+                              "%s under %s (feed %s, drain %s, shim seed %s): exit/sha256 %s differ from the unperturbed run's %s; stderr: %s" % (
+                                  r["scenario"], cfg, r["feed"], r["drain"], r["shim_seed"], r["pert"], r["base"], r["stderr"][-300:]),
+                              {k: r[k] for k in ("scenario", "config", "feed", "drain", "shim_seed", "seed", "base", "pert")})
+    ctx.log("tool level: %d perturbed runs (%d with ≥1 short count/EINTR fired), %d differ, %d scenarios skipped, shim fired %s, %.1fs" % (
+        len(tres), sum(1 for r in tres if r["fired"] > 0), tbad, len(tskipped),
+        {op: {k: v for k, v in d.items() if k in ("short", "eintr")} for op, d in tagg.items()}, t_tools))
     ctx.cov.update({
-        "evaluations": len(done),
+        "tool_runs": len(tres),
+        "tool_runs_with_perturbation_fired": sum(1 for r in tres if r["fired"] > 0),
+        "tool_runs_differing": tbad,
+        "tool_scenarios": sorted({r["scenario"] for r in tres}),
+        "tool_scenarios_skipped": tskipped,
+        "shim_counters": tagg,
+        "tool_samples": [{k: r[k] for k in ("scenario", "config", "feed", "drain", "fired", "base", "pert")} for r in tres[::7][:8]],
+        "tool_wall_s": round(t_tools, 1),
+    })
+    ctx.cov.update({
+        "evaluations": len(done) + len(tres),
         "distinct_nontrivial": len(nontrivial),
         "rule": "seeded scenarios (readat / writeat / ostream op sequences / istream client-op sequences incl. read, skip, splice, get_line, "
                 "record_to_memory), each run through the real code (ASan+UBSan, syscalls wrapped) and the Lean model under the same OS script, "
@@ -547,7 +583,7 @@ def run(ctx):
         "corpus_scenarios": ncorpus,
         "istream_bufsz": B,
         "samples": [{"scenario": sc["line"][:300], "impl": sc["impl"][:300], "model": sc["model"][:300]} for sc in done[ncorpus:ncorpus + 4000:997]],
-        "disagreements_checked": stats["property_failures"] + stats["corr_failures"],
+        "disagreements_checked": stats["property_failures"] + stats["corr_failures"] + tbad,
         "inprocess_scenarios_per_s": round(len(done) / max(t_in, 1e-3), 1),
     })
     return ctx.finish(LEVEL, trusted_extra=[
@@ -562,6 +598,14 @@ def run(ctx):
 def replay(ctx, path):
     body = json.loads(open(path).read())
     rp = body.get("replay", {})
+    if "scenario" in rp:
+        res, _, sk = c12_tools.run(ctx, seed=rp.get("seed", 0), only=rp)
+        for r in res:
+            print("scenario %s config %s: base %s perturbed %s → %s" % (r["scenario"], r["config"], r["base"], r["pert"],
+                                                                        "same" if r["ok"] else "DIFFERENT"))
+        if sk:
+            print("skipped:", sk)
+        return 1 if any(not r["ok"] for r in res) else 0
     if "line" not in rp:
         print("replay file names a broken obligation, no input to replay:", json.dumps(rp)[:800])
         return 1
